@@ -1173,7 +1173,7 @@ def _oauth_signature(
     """
     parts = urllib.parse.urlparse(url)
     scheme, netloc, path = parts[:3]
-    normalized_url = scheme.lower() + "://" + netloc.lower() + path
+    normalized_url = scheme.lower() + "://" + _oauth_netloc(scheme, netloc) + path
 
     base_elems = []
     base_elems.append(method.upper())
@@ -1202,7 +1202,7 @@ def _oauth10a_signature(
     """
     parts = urllib.parse.urlparse(url)
     scheme, netloc, path = parts[:3]
-    normalized_url = scheme.lower() + "://" + netloc.lower() + path
+    normalized_url = scheme.lower() + "://" + _oauth_netloc(scheme, netloc) + path
 
     base_elems = []
     base_elems.append(method.upper())
@@ -1227,6 +1227,16 @@ def _oauth_normalize_parameters(parameters: dict[str, Any]) -> str:
         (_oauth_escape(str(k)), _oauth_escape(str(v))) for k, v in parameters.items()
     )
     return "&".join(f"{k}={v}" for k, v in pairs)
+
+
+def _oauth_netloc(scheme: str, netloc: str) -> str:
+    # RFC 5849 section 3.4.1.2: the host is lowercased and the port is
+    # omitted when it is the default port of the scheme.
+    netloc = netloc.lower()
+    default_port = {"http": ":80", "https": ":443"}.get(scheme.lower())
+    if default_port and netloc.endswith(default_port):
+        netloc = netloc[: -len(default_port)]
+    return netloc
 
 
 def _oauth_escape(val: str | bytes) -> str:
